@@ -95,6 +95,16 @@ func (a *az) stmt(s ast.Stmt) {
 				continue
 			}
 			a.expr(l, mWrite)
+			// x.f = append(x.f, ...) also writes the new elements
+			if len(v.Lhs) == len(v.Rhs) {
+				if ce, ok := unparen(v.Rhs[i]).(*ast.CallExpr); ok {
+					if id, ok := unparen(ce.Fun).(*ast.Ident); ok && id.Name == "append" {
+						if loc, ok := a.fieldOf(l); ok {
+							a.record(loc+"[]", "W", l, l.Pos())
+						}
+					}
+				}
+			}
 			// storing into memory: published unless the destination lies in an object we still own
 			root, in := a.pathRoot(l)
 			ownedDest := a.ownedRoot(root, in)
